@@ -1,6 +1,7 @@
 package redis
 
 import (
+	"sort"
 	"strings"
 
 	"github.com/New-JAMneration/JAM-Protocol/internal/database"
@@ -27,7 +28,8 @@ func (db *redisDB) NewIterator(prefix []byte, start []byte) (database.Iterator, 
 	allKeys := make([]string, 0, 100)
 	var err error
 
-	pattern := startString + "*"
+	prefixString := string(prefix)
+	pattern := prefixString + "*"
 
 	for {
 		var keys []string
@@ -36,9 +38,9 @@ func (db *redisDB) NewIterator(prefix []byte, start []byte) (database.Iterator, 
 			return nil, err
 		}
 
-		// Filter keys that match the prefix
+		// Keep the keys that carry the prefix and are at or after prefix+start
 		for _, key := range keys {
-			if strings.HasPrefix(key, startString) {
+			if strings.HasPrefix(key, prefixString) && strings.Compare(key, startString) >= 0 {
 				allKeys = append(allKeys, key)
 			}
 		}
@@ -48,10 +50,16 @@ func (db *redisDB) NewIterator(prefix []byte, start []byte) (database.Iterator, 
 		}
 	}
 
+	// SCAN returns keys in no particular order and may return a key more than once
+	sort.Strings(allKeys)
+
 	// Pre-allocate capacity for keys and values
 	keys := make([][]byte, 0, len(allKeys))
 	values := make([][]byte, 0, len(allKeys))
-	for _, key := range allKeys {
+	for i, key := range allKeys {
+		if i > 0 && key == allKeys[i-1] {
+			continue
+		}
 		value, err := db.client.Get(key).Bytes()
 		if err != nil && err != redis.Nil {
 			return nil, err
